@@ -1096,6 +1096,9 @@ Definition check (tag : Z) (inp obs : list Z) : verdict :=
   | 11, [v; x; y; z] => verdict_of obs (model_11 (dec_struct v x y z)) (spec_11 (dec_struct v x y z))
   | 12, [a] => verdict_of obs (model_12 (nz a)) (spec_12 (nz a))
   | 13, [b] => verdict_of obs (model_13 (nz b)) (spec_13 (nz b))
+  | 15, [_] =>
+      (* a message type that implements Default (the crate's do not) yields a valid message *)
+      verdict_of obs [1; 1] [1; 1]
   | 14, [k; s0; a; c] =>
       (* every conversion path to the structured form and back to raw: all yield the canonical
          bytes; the structured value is a fixed point of every conversion *)
@@ -1237,6 +1240,32 @@ Definition check (tag : Z) (inp obs : list Z) : verdict :=
           mkV (listZ_eqb obs model) (holds_190 tidx obs) model
       | _ => bad_record
       end
+  | 192, tidx :: shape :: data =>
+      (* input shapes other than JSON values (byte strings, bare integers through serde's value
+         deserializers).  The property: whatever is accepted survives the round trip through its
+         own validating Deserialize.  Model: byte strings are rejected by every type; bare
+         integers are what the integer-represented types read (restricted integers,
+         ShortMessageType), everything else rejects them *)
+      let holds := match obs with
+                   | [0; _] => true
+                   | [1; 1] => true
+                   | _ => false
+                   end in
+      let intlike := Z.leb tidx 5 || Z.eqb tidx 10 in
+      let model :=
+        if Z.eqb shape 0 || negb intlike then [0; ZNONE]
+        else match data with
+             | [v] => (match (if Z.eqb tidx 10 then 0 else 1),
+                              (if Z.eqb tidx 10
+                               then (if Z.leb 128 v && Z.leb v 255 then true else false)
+                               else Z.leb 0 v && Z.leb v (match nt_at (Z.to_nat tidx) with
+                                                         | Some (_, _, m) => Z.of_N m | None => -1 end)) with
+                       | _, true => [1; 1]
+                       | _, false => [0; ZNONE]
+                       end)
+             | _ => [0; ZNONE]
+             end in
+      mkV (listZ_eqb obs model) holds model
   | 191, tidx :: f =>
       (* ... ++ [map-form round trip equal; positional-form round trip equal] *)
       let model := model_191 tidx f ++ [1] in
